@@ -4,6 +4,8 @@
 package e2
 
 import (
+	"github.com/golang/protobuf/proto"
+	"github.com/vx-labs/wasp/v4/wasp/api"
 	"context"
 	"errors"
 	"fmt"
@@ -279,6 +281,10 @@ type World struct {
 	Pending []*GossipMsg
 	// GossipAuto delivers every drained message to every other live node right away.
 	GossipAuto bool
+	// GossipHold, when set, keeps the drained messages for which it returns true (by drain index) in
+	// Pending until DeliverAll.
+	GossipHold  func(idx int) bool
+	gossipIndex int
 
 	lastClock int64
 	oldClock  func() int64
@@ -288,6 +294,7 @@ type GossipMsg struct {
 	From      uint64
 	Payload   []byte
 	Delivered map[uint64]bool
+	Index     int
 }
 
 func (w *World) nextSeq() int64 { w.seq++; return w.seq }
@@ -341,7 +348,7 @@ func NewWorld(t *testing.T, n int, opts ...NodeOpts) *World {
 
 func (w *World) newNode(id uint64, o NodeOpts) *Node {
 	ctx, cancel := context.WithCancel(context.Background())
-	ctx = wasp.StoreLogger(ctx, zap.NewNop())
+	ctx = wasp.StoreLogger(ctx, dbgLogger())
 	n := &Node{ID: id, w: w, ctx: ctx, cancel: cancel, conns: map[uint64]*grpc.ClientConn{}}
 	n.Dir = filepath.Join(w.Dir, fmt.Sprintf("node%d", id))
 	os.MkdirAll(n.Dir, 0o755)
@@ -449,7 +456,8 @@ func (w *World) DrainGossip() {
 			// GetBroadcasts orders by size, not age: a single drain normally holds one operation's
 			// messages; keep the queue order stable by sorting on nothing and delivering as returned.
 			for _, x := range b {
-				w.Pending = append(w.Pending, &GossipMsg{From: n.ID, Payload: append([]byte{}, x...), Delivered: map[uint64]bool{}})
+				w.Pending = append(w.Pending, &GossipMsg{From: n.ID, Payload: append([]byte{}, x...), Delivered: map[uint64]bool{}, Index: w.gossipIndex})
+				w.gossipIndex++
 			}
 		}
 	}
@@ -463,7 +471,12 @@ func (w *World) PumpGossip() {
 			return
 		}
 		moved := false
+		var held []*GossipMsg
 		for _, m := range w.Pending {
+			if w.GossipHold != nil && w.GossipHold(m.Index) {
+				held = append(held, m)
+				continue
+			}
 			for _, n := range w.Nodes {
 				if n.ID != m.From && !n.Dead && !m.Delivered[n.ID] {
 					m.Delivered[n.ID] = true
@@ -472,7 +485,7 @@ func (w *World) PumpGossip() {
 				}
 			}
 		}
-		w.Pending = w.Pending[:0]
+		w.Pending = append(w.Pending[:0], held...)
 		synctest.Wait()
 		if !moved {
 			return
@@ -613,4 +626,33 @@ func (n *Node) accept(c net.Conn) {
 // RunBubble executes f inside a fresh synctest bubble as a subtest.
 func RunBubble(t *testing.T, name string, f func(t *testing.T)) {
 	t.Run(name, func(t *testing.T) { synctest.Test(t, f) })
+}
+
+// decodeKeys lists the entries ("session:<id>", "sub:<session>|<pattern>", "retained:<topic>") a gossip payload carries.
+func decodeKeys(b []byte) ([]string, error) {
+	ev := &api.StateBroadcastEvent{}
+	if err := proto.Unmarshal(b, ev); err != nil {
+		return nil, err
+	}
+	var out []string
+	for _, s := range ev.SessionMetadatas {
+		out = append(out, "session:"+s.SessionID)
+	}
+	for _, s := range ev.Subscriptions {
+		out = append(out, "sub:"+s.SessionID+"|"+string(s.Pattern))
+	}
+	for _, m := range ev.RetainedMessages {
+		if m.Publish != nil {
+			out = append(out, "retained:"+string(m.Publish.Topic))
+		}
+	}
+	return out, nil
+}
+
+func dbgLogger() *zap.Logger {
+	if os.Getenv("VERIF_DEBUG") != "" {
+		l, _ := zap.NewDevelopment()
+		return l
+	}
+	return zap.NewNop()
 }
